@@ -185,6 +185,26 @@ class C11(Property):
             r3 = cls.from_data(out)
             ctx.require(a.data.tobytes() == snap_a and b.data.tobytes() == snap_b, "operand-modified:compiled", "compiled merge modified an operand")
             ctx.require(rel_close(r3._data_array, r1._data_array, 1e-13, np.maximum(np.abs(r1._data_array), scale)), "paths-differ:compiled", f"compiled {r3} vs python {r1}")
+            # the output record may be one of the operands (that is how the in-place merge works): the first or the second one
+            for which in ("first", "second"):
+                for kind, fn in (("compiled", self.jit[spec["cls"]]), ("python", cls._make_merge_data())):
+                    ca, cb = a.copy(), b.copy()
+                    tgt = ca.data if which == "first" else cb.data
+                    try:
+                        fn(ca.data, cb.data, tgt)
+                    except Exception as exc:  # noqa: BLE001
+                        ctx.fail(f"merge-data-raises:{kind}:out={which}", f"{type(exc).__name__}: {exc}")
+                        continue
+                    got = np.array([x for n in tgt.dtype.names for x in np.atleast_1d(tgt[n])], float)
+                    ctx.require(rel_close(got, r1._data_array, 1e-13, np.maximum(np.abs(r1._data_array), scale)), f"paths-differ:{kind}:out-is-{which}-operand", f"merge kernel ({kind}) writing into its {which} operand gives {got}, the out-of-place merge {r1._data_array}")
+            # a droplet merged with itself: twice the volume at the same place
+            if Va > 0:
+                s1 = self._make(cls, ds[0])
+                rs = s1.merge(s1)
+                ctx.require(rel_close(rs.volume, 2 * Va, 1e-12) and rel_close(rs.position, xa, 1e-12, scale), "self-merge", f"d.merge(d) = {rs} for d = {s1}")
+                s2 = self._make(cls, ds[0])
+                s2.merge(s2, inplace=True)
+                ctx.require(rel_close(s2._data_array, rs._data_array, 1e-13, np.maximum(np.abs(rs._data_array), scale)), "paths-differ:self-merge-inplace", f"d.merge(d, inplace=True) gives {s2}, d.merge(d) {rs}")
             # in-place
             # the in-place merge is applied to a droplet of the same provenance as `a` (not to a fresh copy of it), and the flag is
             # handed over in one of its equivalent true forms
